@@ -124,12 +124,12 @@ func (s *MonitoredItemService) ChangeNotification(n *ua.NodeID) {
 			val.Value = &ua.DataValue{}
 			val.Value.Status = ua.StatusBad
 			val.Value.EncodingMask |= ua.DataValueStatusCode
-			item.Sub.NotifyChannel <- val
+			item.notify(val)
 			continue
 		}
 		dv := ns.Attribute(n, item.Req.ItemToMonitor.AttributeID)
 		val.Value = dv
-		item.Sub.NotifyChannel <- val
+		item.notify(val)
 	}
 
 }
@@ -149,6 +149,19 @@ type MonitoredItem struct {
 
 	//TODO: use this
 	Mode ua.MonitoringMode
+}
+
+// notify hands a notification to the subscription of the item.
+//
+// The subscription's background task is the only receiver of its notification
+// channel. Once that task has ended (the subscription was deleted, timed out or
+// could not send to its client) nobody drains the channel any more, so a plain
+// send would block the caller - which holds the service lock - forever.
+func (item *MonitoredItem) notify(val *ua.MonitoredItemNotification) {
+	select {
+	case item.Sub.NotifyChannel <- val:
+	case <-item.Sub.shutdown:
+	}
 }
 
 // https://reference.opcfoundation.org/Core/Part4/v105/docs/5.12.2
